@@ -50,23 +50,24 @@ type lifeClient struct {
 }
 
 type lifeScenario struct {
-	Callbacks    int    // bit0 OnServe, bit1 OnError, bit2 OnAccept, bit3 OnClose
-	Action       string // "shutdown" | "shutdown_tight" | "cancel"
-	ActionAt     time.Duration
-	ShutdownCtx  time.Duration
-	Clients      []lifeClient
-	RejectEvery  int // OnAccept rejects every n-th connection (0 = never)
-	OnServeWork  time.Duration
-	CallbackWork time.Duration
-	ReadTimeout  time.Duration
-	AddrCaller   bool
-	Second       string        // "" | "shutdown" | "cancel": a second lifecycle call by another goroutine
-	SecondAfter  time.Duration // that long after the first one was issued
-	Trigger      string        // what the controller waits for before acting: "time" | "handler_start" | "handler_end" | "accept" | "write_begin"
-	TriggerN     int           // the n-th such event
-	TriggerDelay time.Duration // then this much later
-	WriteDelay   time.Duration // simulated duration of every server-side write
-	Race         bool
+	Callbacks      int    // bit0 OnServe, bit1 OnError, bit2 OnAccept, bit3 OnClose
+	Action         string // "shutdown" | "shutdown_tight" | "cancel"
+	ActionAt       time.Duration
+	ShutdownCtx    time.Duration
+	Clients        []lifeClient
+	RejectEvery    int // OnAccept rejects every n-th connection (0 = never)
+	OnServeWork    time.Duration
+	CallbackWork   time.Duration
+	ReadTimeout    time.Duration
+	AddrCaller     bool
+	Second         string        // "" | "shutdown" | "cancel": a second lifecycle call by another goroutine
+	SecondAfter    time.Duration // that long after the first one was issued
+	Trigger        string        // what the controller waits for before acting: "time" | "handler_start" | "handler_end" | "accept" | "write_begin"
+	TriggerN       int           // the n-th such event
+	TriggerDelay   time.Duration // then this much later
+	WriteDelay     time.Duration // simulated duration of every server-side write
+	DoubleCloseErr bool          // server-side connections fail a second Close, as real sockets do
+	Race           bool
 }
 
 type acceptObs struct {
@@ -75,6 +76,7 @@ type acceptObs struct {
 	Adds      int // connections tracked so far (accepted, not rejected), before this one
 	Closed    int // server-side connections on which Close has been called
 	Untracked int // completed untrack operations
+	CloseCBs  int // close callbacks begun (a connection reported closed is not a live connection)
 	Rejected  bool
 	Step      int
 }
@@ -185,6 +187,7 @@ func genC17(t *Tape) *lifeScenario {
 	sc.TriggerN = 1 + t.Choose(3)
 	sc.TriggerDelay = []time.Duration{0, 0, 200 * time.Microsecond, 3 * time.Millisecond}[t.Choose(4)]
 	sc.WriteDelay = []time.Duration{0, 0, time.Millisecond, 15 * time.Millisecond}[t.Choose(4)]
+	sc.DoubleCloseErr = t.Choose(2) == 1
 	return sc
 }
 
@@ -252,7 +255,7 @@ func runLife(rc *RunCtx, sc *lifeScenario, seed uint64) *lifeOutcome {
 	out := &lifeOutcome{CloseCB: map[string]int{}, CloseCBFlag: map[string]bool{}, HandlerStart: map[uint16]int{}, HandlerEnd: map[uint16]int{},
 		ClientSaw: make([]string, len(sc.Clients)), ClientRecv: make([][]byte, len(sc.Clients)), ClientConn: make([]*Conn, len(sc.Clients)),
 		IdleAtShutdown: make([]bool, len(sc.Clients))}
-	untracked := 0
+	untracked, closeCBs := 0, 0
 	// every lock acquisition by a goroutine of the server itself (a connection goroutine) is its untrack; the counter
 	// update follows within the same scheduler step
 	s.LockObserver = func(named bool) {
@@ -266,6 +269,7 @@ func runLife(rc *RunCtx, sc *lifeScenario, seed uint64) *lifeOutcome {
 
 	ln := NewListener(s, "L")
 	ln.ConnSetup = func(cl, sv *Conn) {
+		sv.DoubleCloseErr = sc.DoubleCloseErr
 		if sc.WriteDelay > 0 {
 			sv.WriteDelay = func() time.Duration { return sc.WriteDelay }
 		}
@@ -357,7 +361,7 @@ func runLife(rc *RunCtx, sc *lifeScenario, seed uint64) *lifeOutcome {
 			nAccept++
 			reject := sc.RejectEvery > 0 && nAccept%sc.RejectEvery == 0
 			// connections accepted but rejected are closed by the server too; they were never tracked
-			out.Accepts = append(out.Accepts, acceptObs{Remote: remote.String(), Count: count, Adds: adds, Closed: cl, Untracked: untracked, Rejected: reject, Step: s.Step})
+			out.Accepts = append(out.Accepts, acceptObs{Remote: remote.String(), Count: count, Adds: adds, Closed: cl, Untracked: untracked, CloseCBs: closeCBs, Rejected: reject, Step: s.Step})
 			out.mu.Unlock()
 			if !reject {
 				s.mu.Lock()
@@ -382,6 +386,7 @@ func runLife(rc *RunCtx, sc *lifeScenario, seed uint64) *lifeOutcome {
 				return
 			}
 			out.mu.Lock()
+			closeCBs++
 			out.CloseCB[remote.String()]++
 			out.CloseCBFlag[remote.String()] = isShutdown
 			out.mu.Unlock()
@@ -703,7 +708,8 @@ func checkC17(rc *RunCtx, sc *lifeScenario, out *lifeOutcome, seed uint64) {
 		if a.Adds-a.Closed < 0 {
 			lo = 1
 		}
-		hi := uint64(1 + a.Adds - a.Untracked)
+		gone := max(a.Untracked, a.CloseCBs) // unregistered, or already reported closed to the application
+		hi := uint64(1 + a.Adds - gone)
 		if a.Count < lo || a.Count > hi {
 			rc.Violate("count_out_of_bounds", cb, "OnAcceptConnFunc for %s was told connectionCount=%d; %d connections had been tracked before it, %d server-side closes and %d completed untracks had happened: the true count (this one included) lies in [%d,%d]",
 				a.Remote, a.Count, a.Adds, a.Closed, a.Untracked, lo, hi)
